@@ -274,6 +274,12 @@ pub fn run_project_seed(project: &Project, dir: &Path, level: &str, seed: u64) -
     run_bin(&BinOpts { args, cwd: dir, hash_seed: Some(seed), timeout: Duration::from_secs(60), sarif_file: None, mem_limit: None })
 }
 
+/// Report ids of warnings and notes (never of errors): analysis passes CS0001-CS0018 except the
+/// error-level lifting reports, and the missing-pragma warning.
+pub const ALLOWED_NON_ERRORS: [&str; 17] = [
+    "P1004", "CS0001", "CS0003", "CS0004", "CS0005", "CS0006", "CS0007", "CS0008", "CS0009", "CS0010", "CS0011", "CS0012", "CS0013", "CS0014", "CS0015", "CS0016", "CS0018",
+];
+
 pub fn judge(m: &Mutant, dir: &Path, case: &Value) -> Vec<Violation> {
     let mut out = Vec::new();
     materialise(&m.project, dir);
@@ -286,6 +292,32 @@ pub fn judge(m: &Mutant, dir: &Path, case: &Value) -> Vec<Violation> {
     } else {
         vec![("info", 1)]
     };
+    // An error must not be silenced by allowing warning / info report ids.
+    if m.must_error {
+        let mut args: Vec<String> = m.project.named.clone();
+        for l in &m.project.libs {
+            args.push("-L".into());
+            args.push(l.clone());
+        }
+        args.extend(["--level".to_string(), "info".to_string(), "--verbose".to_string()]);
+        for id in ALLOWED_NON_ERRORS {
+            args.push("--allow".into());
+            args.push(id.to_string());
+        }
+        let run = run_bin(&BinOpts { args, cwd: dir, hash_seed: Some(1), timeout: Duration::from_secs(60), sarif_file: None, mem_limit: None });
+        let errors = run.diagnostics.iter().filter(|d| d.level() == "error").count();
+        if !run.timed_out && !run.panicked() && (errors == 0 || run.exit == Some(0)) {
+            let mut c = case.clone();
+            c["allow"] = json!("all warning and info ids");
+            out.push(Violation {
+                signature: format!("silenced-by-allow/{}", m.kind),
+                what: format!("fault {}@{} in base {}: with every warning / info id on the --allow list no error-level diagnostic is left (exit {:?})", m.kind, m.position, m.base, run.exit),
+                case: c,
+                expected: "the error is still displayed: --allow names report ids, and the ids allowed here are not those of errors".into(),
+                observed: crate::infra::truncate(&run.stdout, 600),
+            });
+        }
+    }
     for (level, seed) in configs {
         let level = &level;
         let run = run_project_seed(&m.project, dir, level, seed);
@@ -402,7 +434,7 @@ pub fn run(run: &Run) {
          library), plus structural faults (missing / non-UTF-8 / dangling file, missing include, \
          unsupported pragma, sugar in functions, malformed sugar in templates, duplicate parameters, \
          several main components (in named and in only-included files), duplicate definitions in one, two and three files with every dropped definition named by an error), each through the binary under --level info \
-         (and --level error for faults that must be reported); non-trivial = mutant differs from base",
+         (and --level error, and with every warning / info id on the --allow list, for faults that must be reported); non-trivial = mutant differs from base",
     );
     let bases: &[&str] = &["single", "include", "library"];
     let _ = Tier::Quick;
